@@ -408,7 +408,21 @@ pub fn gen_avp_kind(r: &Rng, kind: &str, big: bool) -> TAvp {
         k if BYTE_KINDS.contains(&k) => {
             let l = var_len(r, 1017, big);
             let attr = crate::ops::attr_of_kind(k).unwrap_or(0);
-            let v = r.self_describing(attr, l).or_else(|| r.lookalike(l)).or_else(|| r.known_text()).unwrap_or_else(|| r.bytes(l));
+            let mut v = r.self_describing(attr, l).or_else(|| r.lookalike(l)).or_else(|| r.known_text()).unwrap_or_else(|| r.bytes(l));
+            if v.len() > 2 && r.chance(1, 8) {
+                // padding-like octets at either end are part of an opaque value
+                let k = 1 + r.below(3);
+                let n = v.len();
+                if r.chance(1, 2) {
+                    for x in v[n - k.min(n - 1)..].iter_mut() {
+                        *x = 0;
+                    }
+                } else {
+                    for x in v[..k.min(n - 1)].iter_mut() {
+                        *x = 0;
+                    }
+                }
+            }
             a(vec![hex(&v)])
         }
         k if STR_KINDS.contains(&k) => {
@@ -1189,7 +1203,12 @@ pub fn systematic_avps(empty_text: bool) -> Vec<TAvp> {
     for (x, y) in [(0u8, 0u8), (1, 0), (0, 1), (255, 255), (0, 255), (255, 0), (1, 2)] {
         v.push(a("ProtocolVersion", vec![x.to_string(), y.to_string()]));
     }
-    let texts: Vec<&[u8]> = vec![b"x", b"OK", b"NCC", b"four", b"fives", "\u{20ac}".as_bytes(), "\u{fffd}".as_bytes()];
+    // (terminator-like, padding-like and marker-like characters are part of a text: trailing and lone NULs, white
+    // space at either end, CR LF, a byte-order mark, the replacement character)
+    let texts: Vec<&[u8]> = vec![
+        b"x", b"OK", b"NCC", b"four", b"fives", "\u{20ac}".as_bytes(), "\u{fffd}".as_bytes(), b"a\0", b"a\0\0", b"\0", b"\0\0\0", b" a ", b"a\r\n", b"a\n",
+        "\u{feff}a".as_bytes(), b"1234567\0", b"\0a",
+    ];
     let mut msgs: Vec<String> = vec!["-".to_string()];
     if empty_text {
         msgs.push(String::new());
@@ -1254,6 +1273,15 @@ pub fn systematic_avps(empty_text: bool) -> Vec<TAvp> {
     v.push(a("SequencingRequired", vec![]));
     for k in BYTE_KINDS.iter() {
         for b in [vec![0u8], vec![0xff], vec![0, 0], vec![1, 2, 3], vec![0xffu8; 4], (0..=255u8).collect::<Vec<u8>>()] {
+            v.push(a(k, vec![hex(&b)]));
+        }
+        // an octet string is opaque: padding-like, terminator-like and structure-like octets are part of the value —
+        // zeros behind and in front, a trailing CR LF / NUL / 0xff, type-length-value options (an LCP packet's
+        // contents) alone and with zeros behind them, a value that is a whole LCP packet
+        for b in [
+            vec![7u8, 2, 0], vec![1, 4, 5, 0xdc, 0, 0], vec![1, 4, 5, 0xdc, 3, 4, 0xc0, 0x23, 0, 0, 0], vec![1, 4, 5, 0xdc], vec![0, 0, 1, 2], vec![0x61, 0],
+            vec![0x61, 0x0d, 0x0a], vec![0x61, 0xff], vec![0x20, 0x61, 0x20], vec![1, 9, 0, 8, 1, 4, 5, 0xdc], vec![1, 9, 0, 8, 1, 4, 5, 0xdc, 0, 0], vec![0u8; 16],
+        ] {
             v.push(a(k, vec![hex(&b)]));
         }
     }
@@ -1393,7 +1421,8 @@ fn decode_stream(r: &Rng, out: &mut Out, n: usize, with_leaf: bool) {
         }
     }
     // long record lists: counts around 255/256 and far beyond, all good, and with bad ones among them
-    for count in [255usize, 256, 257, 1000, 5000] {
+    // (10919 = as many six-octet records as a control message can hold behind its Message Type AVP)
+    for count in [255usize, 256, 257, 1000, 5000, 10919] {
         for every in [0usize, 1, 7] {
             let mut recs = vec![mt_record(r)];
             for i in 0..count {
@@ -1403,9 +1432,14 @@ fn decode_stream(r: &Rng, out: &mut Out, n: usize, with_leaf: bool) {
                     recs.push(record(1, 0, 39, &[]));
                 }
             }
+            if count > 10000 && every == 1 {
+                continue; // the model walks a list: two of these are enough to pay for
+            }
             let img = assemble(0x1320, 1, 2, 3, 4, &recs);
             out.push(format!("dec 111 {}", hex(&img)));
-            out.push(format!("avps {}", hex(&img[12..])));
+            if count <= 10000 {
+                out.push(format!("avps {}", hex(&img[12..])));
+            }
         }
     }
     // the enumerated fields: every code 0..=40 and the 16-bit corners, at each place a code is carried
@@ -1801,6 +1835,19 @@ fn payload_len(t: &TAvp) -> usize {
 }
 
 fn hide_stream(r: &Rng, out: &mut Out, n: usize, op: &str) {
+    // every kind's special values (bit patterns, terminator- and padding-like octets, structured octet strings) through
+    // hide and reveal as well: the inner serialisation and the inner decoder see them too
+    for (i, t) in systematic_avps(false).iter().enumerate() {
+        if t.kind == "Hidden" || (i % 4 != 0 && !BYTE_KINDS.contains(&t.kind.as_str()) && !STR_KINDS.contains(&t.kind.as_str()) && t.kind != "ResultCode" && t.kind != "Q931CauseCode") {
+            continue;
+        }
+        let (s_, rv, lp, ap) = hide_args(r, payload_len(t));
+        if op == "hr" {
+            out.push(format!("hr {} {} {} {} {}", t.render(), hex(&s_), hex(&rv), hex(&lp), hex(&ap)));
+        } else {
+            out.push(format!("hide {} {} {} {} {}", t.render(), hex(&s_), hex(&rv), if lp.is_empty() { ".".to_string() } else { hex(&lp) }, hex(&ap)));
+        }
+    }
     // outside the encodable domain: empty variable-length values and Some("") texts are hidden without complaint and
     // revealed as what the decoder makes of them (C11.reveal_hide_any); model and implementation must agree there too
     if op == "hr" {
